@@ -123,6 +123,15 @@ impl Property for StoreProp {
                 for n in 0..2 {
                     ops.push(Op::S(SOp::Import { n, write: true }));
                 }
+                // in half of the cases the store also holds the secret keys of some of the authors whose
+                // entries arrive from elsewhere (the same author on two devices)
+                if rng.chance(1, 2) {
+                    for a in 0..3 {
+                        if rng.chance(1, 2) {
+                            ops.push(Op::S(SOp::ImportAuthor { a }));
+                        }
+                    }
+                }
                 if rng.chance(1, 4) {
                     ops.push(Op::S(SOp::ViaActor));
                 }
@@ -224,6 +233,24 @@ impl Property for StoreProp {
                         18 => ops.push(Op::S(SOp::Reopen)),
                         _ => ops.push(Op::S(SOp::ObserveAll)),
                     }
+                }
+                if rng.chance(1, 4) {
+                    // many documents open at once, one of them closed, then every document is asked to go:
+                    // the open ones have to be refused whatever the order of opens and closes was
+                    let all: Vec<usize> = (0..docs).chain((0..raw).map(|d| RAW_BASE + d)).collect();
+                    for &n in &all {
+                        ops.push(Op::S(SOp::Import { n, write: true }));
+                        ops.push(Op::S(if rng.chance(1, 2) { SOp::OpenRep { n } } else { SOp::OpenInfo { n } }));
+                    }
+                    for _ in 0..rng.range(1, 2) {
+                        ops.push(Op::S(SOp::CloseRep { n: *rng.pick(&all) }));
+                    }
+                    let mut order = all.clone();
+                    rng.shuffle(&mut order);
+                    for n in order {
+                        ops.push(Op::S(SOp::Remove { n }));
+                    }
+                    ops.push(Op::S(SOp::ObserveAll));
                 }
                 ops.push(Op::S(SOp::ObserveAll));
             }
